@@ -288,6 +288,128 @@ func execStress(op string) string {
 	}
 }
 
+// execStress2: two writer goroutines (bytes of A have the top bit clear, bytes of B have it set) and one
+// reader, all really concurrent.  Whatever the schedule: the reader must get every byte exactly once, the
+// bytes of each writer in that writer's order, then the close error.  The result is printed per writer, so
+// it is schedule independent.
+func execStress2(op string) string {
+	f := strings.Split(op, ";")
+	if len(f) != 7 {
+		return "bad-op"
+	}
+	get := func(s, k string) (string, bool) {
+		if strings.HasPrefix(s, k+"=") {
+			return s[len(k)+1:], true
+		}
+		return "", false
+	}
+	capS, ok1 := get(f[1], "cap")
+	aS, ok2 := get(f[2], "a")
+	bS, ok3 := get(f[3], "b")
+	wcS, ok4 := get(f[4], "wc")
+	rcS, ok5 := get(f[5], "rc")
+	eS, ok6 := get(f[6], "e")
+	if !(ok1 && ok2 && ok3 && ok4 && ok5 && ok6) {
+		return "bad-op"
+	}
+	capN, e1 := strconv.Atoi(capS)
+	code, e2 := strconv.Atoi(eS)
+	da, oka := vh.UnHex(aS)
+	db, okb := vh.UnHex(bS)
+	wc, e3 := strconv.Atoi(wcS)
+	rc, e4 := strconv.Atoi(rcS)
+	if e1 != nil || e2 != nil || e3 != nil || e4 != nil || !oka || !okb || capN < 1 || capN > 1<<16 || wc < 1 || rc < 1 || wc > 1<<16 || rc > 1<<16 {
+		return "bad-op"
+	}
+	for _, x := range da {
+		if x&0x80 != 0 {
+			return "bad-op"
+		}
+	}
+	for _, x := range db {
+		if x&0x80 == 0 {
+			return "bad-op"
+		}
+	}
+	p := pipe.NewPipeWithSize(uint32(capN))
+	stop := make(chan struct{})
+	var wg sync.WaitGroup
+	writer := func(data []byte) {
+		defer wg.Done()
+		rest := append([]byte(nil), data...)
+		for len(rest) > 0 {
+			n := wc
+			if n > len(rest) {
+				n = len(rest)
+			}
+			k, _ := p.Write(rest[:n])
+			rest = rest[k:]
+			if k < n {
+				select {
+				case <-stop:
+					return
+				default:
+				}
+				runtime.Gosched()
+			}
+		}
+	}
+	wg.Add(2)
+	go writer(da)
+	go writer(db)
+	go func() {
+		wg.Wait()
+		p.CloseWithError(errOf(code))
+	}()
+	type rr struct {
+		got []byte
+		err error
+	}
+	rdone := make(chan rr, 1)
+	go func() {
+		var got []byte
+		buf := make([]byte, rc)
+		for {
+			k, err := p.Read(buf)
+			got = append(got, buf[:k]...)
+			if err != nil || len(got) > len(da)+len(db)+64 {
+				rdone <- rr{got, err}
+				return
+			}
+		}
+	}()
+	select {
+	case r := <-rdone:
+		var ga, gb []byte
+		for _, x := range r.got {
+			if x&0x80 == 0 {
+				ga = append(ga, x)
+			} else {
+				gb = append(gb, x)
+			}
+		}
+		return vh.Hex(ga) + ";" + vh.Hex(gb) + ";err" + codeOf(r.err)
+	case <-time.After(deadline(30 * time.Second)):
+		hangs++
+		close(stop)
+		p.BreakWithError(errOf(9999))
+		return "HANG"
+	}
+}
+
+func genStress2(r *vh.Rand) string {
+	capN := []int{1, 2, 3, 4, 8, 16}[r.Intn(6)]
+	mk := func(top byte) []byte {
+		d := r.Bytes(r.Range(0, 10*capN))
+		for i := range d {
+			d[i] = d[i]&0x7f | top
+		}
+		return d
+	}
+	return fmt.Sprintf("S2;cap=%d;a=%s;b=%s;wc=%d;rc=%d;e=%d", capN, vh.Hex(mk(0)), vh.Hex(mk(0x80)),
+		[]int{1, capN, capN + 1, r.Range(1, 2*capN)}[r.Intn(4)], []int{1, capN, capN + 1, r.Range(1, 2*capN)}[r.Intn(4)], r.Intn(4))
+}
+
 func genStress(r *vh.Rand) string {
 	capN := []int{1, 2, 3, 4, 8, 16, 64}[r.Intn(7)]
 	n := r.Range(0, 12*capN)
@@ -498,6 +620,232 @@ func execLifecycle(op string) string {
 	return strings.Join(res, ";")
 }
 
+// execMulti: several reader goroutines on one pipe.  sync.Cond wakes waiters in the order in which they
+// parked, and every scripted step waits until the (single) runnable reader has returned or parked again, so
+// the schedule is deterministic.
+func execMulti(op string) string {
+	toks := strings.Split(op, ";")
+	if len(toks) < 3 || !strings.HasPrefix(toks[1], "cap=") || !strings.HasPrefix(toks[2], "k=") {
+		return "bad-op"
+	}
+	capN, e1 := strconv.Atoi(toks[1][4:])
+	k, e2 := strconv.Atoi(toks[2][2:])
+	if e1 != nil || e2 != nil || capN < 0 || capN > 1<<16 || k < 1 || k > 8 {
+		return "bad-op"
+	}
+	p := pipe.NewPipeWithSize(uint32(capN))
+	pend := make([]chan rdResult, k)
+	npend := 0
+	render := func(res rdResult) string {
+		if res.err != nil {
+			return "err" + codeOf(res.err)
+		}
+		return vh.Hex(res.data)
+	}
+	// settle: some pending reader returned -> (index, result); or all pending readers are parked -> (-1)
+	settle := func() (int, string) {
+		limit := time.Now().Add(deadline(30 * time.Second))
+		for spins := 0; ; spins++ {
+			for i, ch := range pend {
+				if ch == nil {
+					continue
+				}
+				select {
+				case res := <-ch:
+					pend[i] = nil
+					npend--
+					return i, render(res)
+				default:
+				}
+			}
+			if parkedReaders(stackBuf) >= npend {
+				// re-check once: a reader may have completed between the two looks
+				done := false
+				for _, ch := range pend {
+					if ch != nil && len(ch) > 0 {
+						done = true
+					}
+				}
+				if !done {
+					return -1, "blocked"
+				}
+				continue
+			}
+			if time.Now().After(limit) {
+				hangs++
+				return -1, "HANG"
+			}
+			if spins < 50 {
+				runtime.Gosched()
+			} else {
+				time.Sleep(50 * time.Microsecond)
+			}
+		}
+	}
+	defer func() {
+		if npend > 0 {
+			for i := 0; i < k+1; i++ { // Signal wakes one waiter per call
+				p.BreakWithError(errOf(9999 + i))
+				p.Write(nil)
+			}
+			for _, ch := range pend {
+				if ch != nil {
+					select {
+					case <-ch:
+					case <-time.After(deadline(30 * time.Second)):
+						hangs++
+					}
+				}
+			}
+		}
+	}()
+	auto := func(lastParked int) string {
+		if npend == 0 {
+			return ""
+		}
+		i, r := settle()
+		if i < 0 {
+			if r == "HANG" {
+				return ">HANG"
+			}
+			if lastParked >= 0 {
+				return ">" + strconv.Itoa(lastParked) + ":blocked"
+			}
+			return ""
+		}
+		return ">" + strconv.Itoa(i) + ":" + r
+	}
+	var waitq []int // parked readers in park order (what Signal will wake next)
+	var res []string
+	for _, t := range toks[3:] {
+		f := strings.Split(t, ":")
+		switch f[0] {
+		case "w", "c", "b":
+			if len(f) != 2 {
+				return "bad-op"
+			}
+			var base string
+			switch f[0] {
+			case "w":
+				d, ok := vh.UnHex(f[1])
+				if !ok {
+					return "bad-op"
+				}
+				n, e := p.Write(d)
+				ec := "none"
+				if e != nil {
+					ec = codeOf(e)
+				}
+				base = fmt.Sprintf("w=%d,%s", n, ec)
+			default:
+				code, err := strconv.Atoi(f[1])
+				if err != nil {
+					return "bad-op"
+				}
+				if f[0] == "c" {
+					p.CloseWithError(errOf(code))
+				} else {
+					p.BreakWithError(errOf(code))
+				}
+				base = f[0]
+			}
+			// the Signal woke the head of the wait queue (if any): it returns, or parks again at the tail
+			woken := -1
+			if len(waitq) > 0 {
+				woken = waitq[0]
+				waitq = waitq[1:]
+			}
+			sfx := auto(woken)
+			if woken >= 0 && strings.HasSuffix(sfx, ":blocked") {
+				waitq = append(waitq, woken)
+			}
+			res = append(res, base+sfx)
+		case "dis":
+			res = append(res, "dis="+strconv.Itoa(p.Discard()))
+		case "len":
+			n := p.VerifC21Len()
+			if n < 0 {
+				res = append(res, "len=nil")
+			} else {
+				res = append(res, "len="+strconv.Itoa(n))
+			}
+		case "r":
+			if len(f) != 3 {
+				return "bad-op"
+			}
+			i, e1 := strconv.Atoi(f[1])
+			n, e2 := strconv.Atoi(f[2])
+			if e1 != nil || e2 != nil || n < 0 || n > 1<<16 {
+				return "bad-op"
+			}
+			if i < 0 || i >= k {
+				res = append(res, "r=noreader")
+				continue
+			}
+			if pend[i] != nil {
+				res = append(res, "r=busy")
+				continue
+			}
+			ch := make(chan rdResult, 1)
+			pend[i] = ch
+			npend++
+			go func() {
+				buf := make([]byte, n)
+				kk, e := p.Read(buf)
+				ch <- rdResult{append([]byte(nil), buf[:kk]...), e, 0}
+			}()
+			j, r := settle()
+			if j < 0 && r == "blocked" {
+				waitq = append(waitq, i)
+			}
+			res = append(res, "r="+r)
+		default:
+			return "bad-op"
+		}
+	}
+	return strings.Join(res, ";")
+}
+
+func genMulti(r *vh.Rand) string {
+	capN := []int{1, 2, 3, 4, 8}[r.Intn(5)]
+	k := r.Range(2, 3)
+	var sb strings.Builder
+	fmt.Fprintf(&sb, "M;cap=%d;k=%d", capN, k)
+	next := byte(r.Intn(256))
+	steps := r.Range(4, 18)
+	for i := 0; i < steps; i++ {
+		switch x := r.Intn(20); {
+		case x < 8:
+			fmt.Fprintf(&sb, ";r:%d:%d", r.Intn(k), r.Range(0, capN+1))
+		case x < 15:
+			n := r.Range(0, capN+1)
+			d := make([]byte, n)
+			for j := range d {
+				d[j] = next
+				next++
+			}
+			fmt.Fprintf(&sb, ";w:%s", vh.Hex(d))
+		case x < 16:
+			if i*2 > steps {
+				fmt.Fprintf(&sb, ";c:%d", r.Intn(3))
+			} else {
+				sb.WriteString(";len")
+			}
+		case x < 17:
+			if i*2 > steps {
+				fmt.Fprintf(&sb, ";b:%d", r.Intn(3))
+			} else {
+				sb.WriteString(";len")
+			}
+		case x < 18:
+			sb.WriteString(";dis")
+		default:
+			sb.WriteString(";len")
+		}
+	}
+	return sb.String()
+}
+
 // execFixedBuffer drives the exported FixedBuffer directly: F;cap=N;w:<hex>;r:<n>;len;reset
 func execFixedBuffer(op string) string {
 	toks := strings.Split(op, ";")
@@ -622,8 +970,14 @@ func exec(op string) (out string) {
 	if strings.HasPrefix(op, "F;") {
 		return execFixedBuffer(op)
 	}
+	if strings.HasPrefix(op, "M;") {
+		return execMulti(op)
+	}
 	if strings.HasPrefix(op, "S;") {
 		return execStress(op)
+	}
+	if strings.HasPrefix(op, "S2;") {
+		return execStress2(op)
 	}
 	if strings.HasPrefix(op, "L;") {
 		return execLifecycle(op)
@@ -794,6 +1148,9 @@ func (s *shadow) deliverable() bool {
 
 func gen(r *vh.Rand) string {
 	if r.Chance(1, 10) {
+		if r.Chance(1, 3) {
+			return genStress2(r)
+		}
 		return genStress(r)
 	}
 	if r.Chance(1, 5) {
@@ -801,6 +1158,9 @@ func gen(r *vh.Rand) string {
 	}
 	if r.Chance(1, 12) {
 		return genFixedBuffer(r)
+	}
+	if r.Chance(1, 10) {
+		return genMulti(r)
 	}
 	s := &shadow{}
 	s.capN = []int{0, 1, 2, 3, 4, 5, 7, 8, 16}[r.Intn(9)]
